@@ -45,7 +45,7 @@ impl<'a> MessageFrame<'a> {
         if msg_crc != crc24.get_crc() as u32 {
             return Err(RtcmError::NotValid);
         }
-        let message_number: Option<u16> = if frame_data.len() >= 8 {
+        let message_number: Option<u16> = if length >= 2 {
             Some(((frame_data[3] as u16) << 4) | ((frame_data[4] as u16) >> 4))
         } else {
             None
